@@ -31,6 +31,7 @@ type Gen struct {
 	funcs     map[string]*ssa.Function // by key, all functions with bodies in target packages
 	loadErrs  []string
 	autoInfo  *Auto
+	immutableGlobal map[*ssa.Global]bool
 }
 
 func Load(repo, verifDir string) (*Gen, error) {
@@ -113,6 +114,8 @@ func Load(repo, verifDir string) (*Gen, error) {
 			return nil, err
 		}
 	}
+	g.computeImmutableGlobals()
+	immutableGlobals = g.immutableGlobal
 	g.eff = NewEffects(g)
 	return g, nil
 }
